@@ -429,6 +429,7 @@ func extractC20() *lean {
 		}
 	}
 	l.def("maxRedirectsConst", "Option Nat", maxR, maxR)
+	c20ResponseCap(l, cl)
 
 	// registered server flags
 	var flags []string
